@@ -77,7 +77,7 @@ def r4_mut_self(text, item_kind=None):
     m = re.search(r'\bfn\s+\w+\s*(<[^>]*>)?\s*\(\s*mut\s+self\b', masked)
     if not m:
         return text, 0
-    b = rsscan.find_body_open(masked, m.end())
+    b = rsscan.find_body_open(masked, masked.index('(', m.start()))
     if b < 0:
         return text, 0
     sig = text[:b]
